@@ -485,8 +485,18 @@ func c14Run(d c14Cert) (accepted bool, detail string, err error) {
 		return false, "", err
 	}
 	switch d.Path {
-	case "proposal", "block":
-		rules := c14Rules(c14Tree())
+	case "proposal", "block", "block-known":
+		tree := c14Tree()
+		if d.Path == "block-known" {
+			// the proposal is already a node of the local pending tree (the node heard of it through a proposal
+			// message before the block arrives): the block's certificate has to be judged all the same
+			known := &cbft.ProposalNode{In: &cbft.QuorumCert{
+				VoteInfo:         &cbft.VoteInfo{ProposalId: c14ProposalID, ProposalView: 2, ParentId: c14CertifiedID, ParentView: 1},
+				LedgerCommitInfo: &cbft.LedgerCommitInfo{VoteInfoHash: c14ProposalID},
+			}}
+			tree.Root.Sons[0].Sons = append(tree.Root.Sons[0].Sons, known)
+		}
+		rules := c14Rules(tree)
 		proposal := &cbft.QuorumCert{VoteInfo: &cbft.VoteInfo{ProposalId: c14ProposalID, ProposalView: 2,
 			ParentId: c14CertifiedID, ParentView: 1}}
 		if d.Path == "proposal" {
@@ -507,7 +517,7 @@ func c14Run(d c14Cert) (accepted bool, detail string, err error) {
 			}
 			proposal.SignInfos = []*cbftPb.QuorumCertSign{ps}
 		} else if d.Collector >= 0 {
-			return false, "", fmt.Errorf("descriptor: path block cannot tell the callee a collector")
+			return false, "", fmt.Errorf("descriptor: path %s cannot tell the callee a collector", d.Path)
 		}
 		e := rules.CheckProposal(proposal, c14Justify(d), c14Validators(d.N))
 		if e != nil {
@@ -1047,7 +1057,7 @@ func TestC14(t *testing.T) {
 	for n := 1; n <= maxN && !stop; n++ {
 		for _, path := range c14EnumPaths(n, thorough) {
 			collector := 0
-			if path == "block" {
+			if path == "block" || path == "block-known" {
 				collector = -1
 			}
 			c14EachCounts(n+extra, func(k c14Counts) {
@@ -1170,13 +1180,13 @@ func TestC14(t *testing.T) {
 		c.Check(t, "qc-random", hx.N(1500, 12000), func(cs *hx.Case) {
 			rt := cs.RT()
 			n := rapid.IntRange(lo, hi).Draw(rt, "n")
-			paths := []string{"proposal", "block", "smr", "smr-pruned", "collect", "tdpos", "xpoa", "tdpos-term", "xpoa-change", "xpoa-reorg"}
+			paths := []string{"proposal", "block", "block-known", "smr", "smr-pruned", "collect", "tdpos", "xpoa", "tdpos-term", "xpoa-change", "xpoa-reorg"}
 			path := rapid.SampledFrom(paths).Draw(rt, "path")
 			if (path == "tdpos-term" || path == "xpoa-change" || path == "xpoa-reorg") && n < 2 {
 				n = 2 // a one-member set cannot be changed into a different one of the same size
 			}
 			collector := 0
-			if path == "block" {
+			if path == "block" || path == "block-known" {
 				collector = -1
 			}
 			need := c14Threshold(n)
@@ -1265,18 +1275,18 @@ func TestC14(t *testing.T) {
 func c14EnumPaths(n int, thorough bool) []string {
 	switch {
 	case thorough && n >= 2:
-		return []string{"proposal", "block", "smr", "smr-pruned", "collect", "tdpos", "xpoa", "tdpos-term", "xpoa-change", "xpoa-reorg"}
+		return []string{"proposal", "block", "block-known", "smr", "smr-pruned", "collect", "tdpos", "xpoa", "tdpos-term", "xpoa-change", "xpoa-reorg"}
 	case thorough:
-		return []string{"proposal", "block", "smr", "smr-pruned", "collect", "tdpos", "xpoa"}
+		return []string{"proposal", "block", "block-known", "smr", "smr-pruned", "collect", "tdpos", "xpoa"}
 	case n >= 7:
 		return []string{"proposal", "block"}
 	case n >= 5:
-		return []string{"proposal", "block", "smr", "smr-pruned", "collect"}
+		return []string{"proposal", "block", "block-known", "smr", "smr-pruned", "collect"}
 	}
 	if n >= 2 {
-		return []string{"proposal", "block", "smr", "smr-pruned", "collect", "tdpos", "xpoa", "tdpos-term", "xpoa-change", "xpoa-reorg"}
+		return []string{"proposal", "block", "block-known", "smr", "smr-pruned", "collect", "tdpos", "xpoa", "tdpos-term", "xpoa-change", "xpoa-reorg"}
 	}
-	return []string{"proposal", "block", "smr", "smr-pruned", "collect", "tdpos", "xpoa"}
+	return []string{"proposal", "block", "block-known", "smr", "smr-pruned", "collect", "tdpos", "xpoa"}
 }
 
 // c14EnumVariants: the placement / order / delivery variants enumerated for (n, path).
